@@ -68,7 +68,7 @@ KEY_INSIDE = "cansee.viewer-inside-target-not-visible"
 KEY_PTREGION = "visibleregion.point-sphere-diameter-used-as-radius"
 
 SHAPES = {"box": "BoxShape()", "spheroid": "SpheroidShape()", "cylinder": "CylinderShape()", "cone": "ConeShape()"}
-MAX_RAYS = 30000.0
+MAX_RAYS = 15000.0
 
 
 # ---------------------------------------------------------------------------------------------------------
@@ -258,8 +258,12 @@ def gen_viewer(rng, O):
         else:
             a = math.degrees(math.asin(R / rho))
             _, _, alt = O.az_alt(q)
-            ca = max(0.15, math.cos(min(math.pi / 2, abs(alt) + math.radians(a))))
-            area = max(area, min(hd, (2 * a + 2) / ca) * min(vd, 2 * a + 2))
+            if abs(math.degrees(alt)) + a >= 88.0:
+                # the target can straddle the local Z axis: the real code then casts the whole window
+                area = max(area, hd * vd)
+            else:
+                ca = max(0.05, math.cos(abs(alt) + math.radians(a)))
+                area = max(area, min(hd, (2 * a + 2) / ca) * min(vd, 2 * a + 2))
     smin = math.sqrt(area / MAX_RAYS)
     pref = float(rng.choice([0.2, 0.5, 1.0, 2.0], p=[0.3, 0.3, 0.25, 0.15]))
     s = max(pref, smin)
@@ -329,99 +333,99 @@ def gen_case(rng, nviewers):
     from rt import visoracle as O
 
     case = {"viewers": [gen_viewer(rng, O) for _ in range(nviewers)]}
-    # one operator-level query per program: (viewer index, 'p'|'o', target index)
-    vi = int(rng.integers(nviewers))
-    vw = case["viewers"][vi]
-    if vw["objs"] and rng.random() < 0.4:
-        case["op"] = [vi, "o", int(rng.integers(len(vw["objs"])))]
-    else:
-        case["op"] = [vi, "p", int(rng.integers(len(vw["pts"])))]
+    # operator-level queries (`X can see Y` evaluated inside a requirement): about one per three viewers.  The
+    # (distance scaling, bare vector) combination is left to the direct queries: it makes the whole requirement raise.
+    ops = []
+    for vi, vw in enumerate(case["viewers"]):
+        if rng.random() > 0.4:
+            continue
+        if vw["objs"] and rng.random() < 0.4:
+            ops.append([vi, "o", int(rng.integers(len(vw["objs"])))])
+        else:
+            cands = [j for j, p in enumerate(vw["pts"]) if not (vw["ray"]["mode"] == "dscale" and p["form"] == "vector")]
+            if cands:
+                ops.append([vi, "p", int(cands[int(rng.integers(len(cands)))])])
+    case["ops"] = ops
     return case
 
 
 # ---------------------------------------------------------------------------------------------------------
-# rendering to Scenic source
+# the Scenic program.  Its text is constant (parsing long specifier lists with the pegen parser dominates the
+# cost otherwise); the numbers of the case are read from the `verif_script` module.  All viewers, targets and
+# occluders are created by the compiled `new ... at ..., with ...` statements below.
+
+PROGRAM = """
+import verif_script as V
+from scenic.core.vectors import Vector as _Vec
+_case = V.EXTRA['c17case']
+_shapes = {'box': BoxShape, 'spheroid': SpheroidShape, 'cylinder': CylinderShape, 'cone': ConeShape}
+
+def mkbody(o):
+    pos = _Vec(*o['pos'])
+    y, p, r = o['ypr']
+    w, l, h = o['dims']
+    shp = _shapes[o.get('shape', 'box')]()
+    occ = o['occluding']
+    return new Object at pos, with yaw y, with pitch p, with roll r, with width w, with length l, with height h, with shape shp, with occluding occ, with allowCollisions True, with requireVisible False
+
+def mkviewer(v):
+    ray = v['ray']
+    dens = ray.get('density') or 5
+    cnt = tuple(ray['count']) if ray['mode'] == 'count' else None
+    ds = ray['mode'] == 'dscale'
+    pos = _Vec(*v['pos'])
+    d = v['d']
+    kind = v['kind']
+    if kind == 'Point':
+        return new Point at pos, with visibleDistance d, with viewRayDensity dens, with viewRayCount cnt, with viewRayDistanceScaling ds
+    y, p, r = v['ypr']
+    va = (v['h'], v['v'])
+    if kind == 'Object':
+        w, l, h = v['dims']
+        cam = _Vec(*v['cam'])
+        occ = v['occluding']
+    if v['parent'] is None:
+        if kind == 'OrientedPoint':
+            return new OrientedPoint at pos, with yaw y, with pitch p, with roll r, with viewAngles va, with visibleDistance d, with viewRayDensity dens, with viewRayCount cnt, with viewRayDistanceScaling ds
+        return new Object at pos, with yaw y, with pitch p, with roll r, with width w, with length l, with height h, with cameraOffset cam, with viewAngles va, with visibleDistance d, with viewRayDensity dens, with viewRayCount cnt, with viewRayDistanceScaling ds, with occluding occ, with allowCollisions True, with requireVisible False
+    par = Orientation.fromEuler(*v['parent'])
+    if kind == 'OrientedPoint':
+        return new OrientedPoint at pos, with parentOrientation par, with yaw y, with pitch p, with roll r, with viewAngles va, with visibleDistance d, with viewRayDensity dens, with viewRayCount cnt, with viewRayDistanceScaling ds
+    return new Object at pos, with parentOrientation par, with yaw y, with pitch p, with roll r, with width w, with length l, with height h, with cameraOffset cam, with viewAngles va, with visibleDistance d, with viewRayDensity dens, with viewRayCount cnt, with viewRayDistanceScaling ds, with occluding occ, with allowCollisions True, with requireVisible False
+
+def mkpoint(q):
+    pos = _Vec(*q['p'])
+    if q['form'] == 'vector':
+        return pos
+    if q['form'] == 'point':
+        return new Point at pos
+    return new OrientedPoint at pos, facing (1.0, 0.5, -0.3)
+
+_out = []
+for _v in _case['viewers']:
+    _out.append((mkviewer(_v), [mkpoint(_p) for _p in _v['pts']], [mkbody(_o) for _o in _v['objs']], [mkbody(_w) for _w in _v['occ']]))
+ego = new Object at (500, 500, 500), with occluding False, with allowCollisions True, with requireVisible False
+param c17 = _out
+_pairs = [(_out[_op[0]][0], _out[_op[0]][1 if _op[1] == 'p' else 2][_op[2]]) for _op in _case['ops']]
+require V.c17rec([(_x can see _y) for (_x, _y) in _pairs])
+"""
 
 
-def _f(x):
-    return repr(float(x))
+def render(case):
+    """Install the case where the program reads it; returns the (constant) program text."""
+    from rt import su
 
-
-def _vec(p):
-    return "(" + ", ".join(_f(x) for x in p) + ")"
-
-
-def _ori(ypr, parent=None):
-    s = ""
-    if parent is not None:
-        s += f", with parentOrientation Orientation.fromEuler({_f(parent[0])}, {_f(parent[1])}, {_f(parent[2])})"
-    s += f", with yaw {_f(ypr[0])}, with pitch {_f(ypr[1])}, with roll {_f(ypr[2])}"
-    return s
+    su.script.EXTRA["c17case"] = case
+    return PROGRAM
 
 
 def _obj(name, pos, ypr, dims, occluding, shape=None, extra=""):
-    s = f"{name} = new Object at {_vec(pos)}{_ori(ypr)}"
-    s += f", with width {_f(dims[0])}, with length {_f(dims[1])}, with height {_f(dims[2])}"
+    s = f"{name} = new Object at ({pos[0]!r}, {pos[1]!r}, {pos[2]!r}), with yaw {ypr[0]!r}, with pitch {ypr[1]!r}, with roll {ypr[2]!r}"
+    s += f", with width {dims[0]!r}, with length {dims[1]!r}, with height {dims[2]!r}"
     if shape and shape != "box":
         s += f", with shape {SHAPES[shape]}"
     s += f", with occluding {bool(occluding)}, with allowCollisions True, with requireVisible False{extra}"
     return s
-
-
-def render(case):
-    L = ["import verif_script as V", "from scenic.core.vectors import Vector as _Vec", "_out = []"]
-    first_obj = None
-    for i, v in enumerate(case["viewers"]):
-        ray = v["ray"]
-        rs = ""
-        if ray["mode"] == "density" and ray["density"] is not None:
-            rs = f", with viewRayDensity {_f(ray['density'])}"
-        elif ray["mode"] == "count":
-            rs = f", with viewRayCount ({ray['count'][0]}, {ray['count'][1]})"
-        elif ray["mode"] == "dscale":
-            rs = f", with viewRayDensity {_f(ray['density'])}, with viewRayDistanceScaling True"
-        vis = f", with visibleDistance {_f(v['d'])}{rs}"
-        if v["kind"] == "Point":
-            L.append(f"v{i} = new Point at {_vec(v['pos'])}{vis}")
-        elif v["kind"] == "OrientedPoint":
-            L.append(f"v{i} = new OrientedPoint at {_vec(v['pos'])}{_ori(v['ypr'], v['parent'])}, with viewAngles ({_f(v['h'])}, {_f(v['v'])}){vis}")
-        else:
-            s = f"v{i} = new Object at {_vec(v['pos'])}{_ori(v['ypr'], v['parent'])}"
-            s += f", with width {_f(v['dims'][0])}, with length {_f(v['dims'][1])}, with height {_f(v['dims'][2])}"
-            s += f", with cameraOffset {_vec(v['cam'])}, with viewAngles ({_f(v['h'])}, {_f(v['v'])}){vis}"
-            s += f", with occluding {bool(v['occluding'])}, with allowCollisions True, with requireVisible False"
-            L.append(s)
-            first_obj = first_obj or f"v{i}"
-        names_p, names_o, names_w = [], [], []
-        for j, p in enumerate(v["pts"]):
-            n = f"p{i}_{j}"
-            if p["form"] == "vector":
-                L.append(f"{n} = _Vec{_vec(p['p'])}")
-            elif p["form"] == "point":
-                L.append(f"{n} = new Point at {_vec(p['p'])}")
-            else:
-                L.append(f"{n} = new OrientedPoint at {_vec(p['p'])}, facing (1.0, 0.5, -0.3)")
-            names_p.append(n)
-        for j, o in enumerate(v["objs"]):
-            n = f"o{i}_{j}"
-            L.append(_obj(n, o["pos"], o["ypr"], o["dims"], o["occluding"], o["shape"]))
-            names_o.append(n)
-            first_obj = first_obj or n
-        for j, w in enumerate(v["occ"]):
-            n = f"w{i}_{j}"
-            L.append(_obj(n, w["pos"], w["ypr"], w["dims"], w["occluding"]))
-            names_w.append(n)
-            first_obj = first_obj or n
-        L.append(f"_out.append((v{i}, [{', '.join(names_p)}], [{', '.join(names_o)}], [{', '.join(names_w)}]))")
-    L.append("param c17 = _out")
-    if first_obj is None:
-        L.append("_dummy = new Object at (500, 500, 500), with occluding False, with allowCollisions True, with requireVisible False")
-        first_obj = "_dummy"
-    L.append(f"ego = {first_obj}")
-    vi, kind, ti = case["op"]
-    tn = f"{'p' if kind == 'p' else 'o'}{vi}_{ti}"
-    L.append(f"require V.c17rec(v{vi} can see {tn})")
-    return "\n".join(L) + "\n"
 
 
 # ---------------------------------------------------------------------------------------------------------
@@ -487,7 +491,7 @@ def _store():
     st = su.script.EXTRA.setdefault("c17", [])
 
     def rec(val):
-        st.append(bool(val))
+        st.append([bool(x) for x in val])
         return True
 
     su.script.c17rec = rec
@@ -650,44 +654,43 @@ def run_case(case, ctx, rng, only=None):
                     )
 
     # ---------------- operator plumbing: `X can see Y` inside a requirement, occluders = every occluding object
-    if only is None or only == "op":
-        vi, kind, ti = case["op"]
-        v = case["viewers"][vi]
-        ov = oracle_viewer(O, v)
-        allboxes = []
-        for vj, w in enumerate(case["viewers"]):
-            if w["kind"] == "Object" and vj != vi:
-                allboxes.append(O.Box(w["pos"], (O.rot(*w["parent"]) if w.get("parent") is not None else np.eye(3)) @ O.rot(*w["ypr"]), w["dims"], w["occluding"]))
-            for tj, o in enumerate(w["objs"]):
-                if not (vj == vi and kind == "o" and tj == ti):
-                    allboxes.append(O.Box(o["pos"], O.rot(*o["ypr"]), o["dims"], o["occluding"]))  # non-box shapes are never occluding
-            allboxes.extend(oracle_box(O, x) for x in w["occ"])
+    if (only is None or only == "op") and case["ops"]:
         del store[:]
         err = None
         try:
             scenario.generate(maxIterations=1, verbosity=0)
         except Exception as e:
             err = e
-        if err is not None or len(store) != 1:
-            key = None
-            if err is not None and v["ray"]["mode"] == "dscale" and kind == "p" and v["pts"][ti]["form"] == "vector" and isinstance(err, AttributeError) and "position" in str(err):
-                key = KEY_DSCALE
-            ctx.violation(key, f"operator: scene generation with `require V.c17rec(X can see Y)` failed: {type(err).__name__ if err else 'no evaluation'}: {str(err)[:150]}", {"case": case, "q": "op"})
+        if err is not None or len(store) != 1 or len(store[0]) != len(case["ops"]):
+            ctx.violation(None, f"operator: scene generation with `require V.c17rec([X can see Y ...])` failed: {type(err).__name__ if err else 'no evaluation'}: {str(err)[:150]}", {"case": case, "q": "op"})
         else:
-            real = store[0]
-            ctx.res["evaluations"] += 1
-            if kind == "p":
-                p = v["pts"][ti]
-                exp, cls = O.expected_point(ov, p["p"], allboxes)
-                model = O.rotate_first_model(ov, True, p["p"], allboxes) if v["kind"] != "Point" else None
-            else:
-                o = v["objs"][ti]
-                dist = float(np.linalg.norm(np.asarray(o["pos"]) - ov.cam))
-                exp, cls = O.expected_object(ov, oracle_target(O, o), allboxes, spacing_for(v, dist), rng)
-                model = O.rotate_first_model(ov, True, o["pos"], allboxes) if (v["kind"] != "Point" and real) else None
-            if exp is None:
-                ctx.skip("operator_" + cls)
-            else:
+            for (vi, kind, ti), real in zip(case["ops"], store[0]):
+                v = case["viewers"][vi]
+                ov = oracle_viewer(O, v)
+                allboxes = []
+                for vj, w in enumerate(case["viewers"]):
+                    if w["kind"] == "Object" and vj != vi:
+                        Rw = O.rot(*w["ypr"])
+                        if w.get("parent") is not None:
+                            Rw = O.rot(*w["parent"]) @ Rw
+                        allboxes.append(O.Box(w["pos"], Rw, w["dims"], w["occluding"]))
+                    for tj, o in enumerate(w["objs"]):
+                        if not (vj == vi and kind == "o" and tj == ti):
+                            allboxes.append(O.Box(o["pos"], O.rot(*o["ypr"]), o["dims"], o["occluding"]))  # non-box shapes never occlude
+                    allboxes.extend(oracle_box(O, x) for x in w["occ"])
+                ctx.res["evaluations"] += 1
+                if kind == "p":
+                    p = v["pts"][ti]
+                    exp, cls = O.expected_point(ov, p["p"], allboxes)
+                    model = O.rotate_first_model(ov, True, p["p"], allboxes) if v["kind"] != "Point" else None
+                else:
+                    o = v["objs"][ti]
+                    dist = float(np.linalg.norm(np.asarray(o["pos"]) - ov.cam))
+                    exp, cls = O.expected_object(ov, oracle_target(O, o), allboxes, spacing_for(v, dist), rng)
+                    model = O.rotate_first_model(ov, True, o["pos"], allboxes) if (v["kind"] != "Point" and real) else None
+                if exp is None:
+                    ctx.skip("operator_" + cls)
+                    continue
                 ctx.bump("operator_checks")
                 ctx.bump("operator_" + ("true" if exp else "false"))
                 if real != exp:
@@ -745,7 +748,7 @@ def check_shape_models(ctx):
 
 def plan(tier, seed):
     n = 16 if tier == "quick" else 64
-    per = 14 if tier == "quick" else 55
+    per = 4 if tier == "quick" else 20
     return [{"shard": i, "programs": per, "timeout": 900 if tier == "quick" else 2400} for i in range(n)]
 
 
@@ -757,10 +760,10 @@ def run_shard(spec):
         ctx.violation(None, f"oracle self-check: inner shape model not contained in the real mesh for {bad} (check the oracle, not Scenic)", {"case": None, "q": None})
         return ctx.res
     for k in range(spec["programs"]):
-        case = gen_case(rng, nviewers=int(rng.integers(3, 7)))
+        case = gen_case(rng, nviewers=int(rng.integers(10, 15)))
         src = run_case(case, ctx, rng)
         if len(ctx.res["samples"]) < 1 and k == 0:
-            ctx.res["samples"].append({"program": src[:3000]})
+            ctx.res["samples"].append({"program": src, "case(first viewer)": case["viewers"][0], "ops": case["ops"]})
     ctx.res["nontrivial"] = sorted(set(ctx.res["nontrivial"]))
     return ctx.res
 
